@@ -112,9 +112,9 @@ def lastOf (W : Nat) : Nat → List Item → Option (Nat × Nat)
     | some x => some x
     | none => some (idx + 1, fillerLen W p.2)
 
-theorem paintLoop_fit (fx : Fixes) (W H total : Nat) (nc : Bool) (hW : 0 < W) : ∀ (items : List Item) (idx real : Nat),
-    real + barRows W items ≤ H → (idx = 0 → headNonEmpty items) →
-    paintLoop fx W H total nc idx real (items.map Item.line) =
+theorem paintLoop_fit (fx : Fixes) (W H total : Nat) (nc up : Bool) (hW : 0 < W) : ∀ (items : List Item) (idx real : Nat),
+    real + barRows W items ≤ H → (idx = 0 → headNonEmpty items ∧ up = false) →
+    paintLoop fx W H total nc up idx real (items.map Item.line) =
       (opsFromF fx.f23 W total idx items, real + barRows W items, lastOf W idx items) := by
   intro items
   induction items with
@@ -124,13 +124,22 @@ theorem paintLoop_fit (fx : Fixes) (W H total : Nat) (nc : Bool) (hW : 0 < W) : 
     obtain ⟨k, cs⟩ := p
     have hblank : (fx.f4 && idx == 0 && nc && cs.length == 0 && decide (total > 1)) = false := by
       by_cases h0 : idx = 0
-      · have hne : cs ≠ [] := hhead h0
+      · have hne : cs ≠ [] := (hhead h0).1
         have : ¬ (cs.length = 0) := by
           intro h; exact hne (List.eq_nil_of_length_eq_zero h)
         simp [this]
       · simp [h0]
+    have hpark : (fx.fpark && nc && up) = false ∨ idx ≠ 0 := by
+      by_cases h0 : idx = 0
+      · left; rw [(hhead h0).2]; simp
+      · right; exact h0
+    have hpre : (if idx ≠ 0 then [TOp.writeLine []] else if (fx.fpark && nc && up) = true then [TOp.writeLine []] else []) =
+        (if idx ≠ 0 then [TOp.writeLine []] else []) := by
+      rcases hpark with h | h
+      · rw [h]; simp
+      · simp [h]
     simp only [List.map_cons, paintLoop, Item.line, wrappedHeight_eq W hW, mkLine_cols]
-    simp only [hblank, Bool.false_eq_true, if_false, List.append_nil]
+    simp only [hblank, hpre, Bool.false_eq_true, if_false, List.append_nil]
     simp only [barRows] at hfit
     by_cases hb : k = .bar
     · subst hb
@@ -225,13 +234,13 @@ non-empty first line, the executable `drawToTerm` — of the pinned code or with
 makes exactly the calls `drawOps` and returns the rows of the bar lines. -/
 theorem drawToTerm_fit (fx : Fixes) (W H n : Nat) (hW : 0 < W) (items : List Item) (ds : DrawState)
     (hlines : ds.lines = items.map Item.line) (hmc : ds.moveCursor = false) (hal : ds.alignment = .top)
-    (hfit : barRows W items ≤ H) (hhead : headNonEmpty items) :
+    (hfit : barRows W items ≤ H) (hhead : headNonEmpty items) (hup : ds.unparked = false) :
     drawToTerm fx ds W H n = (drawOps W n (items.map (·.2)), barRows W items) := by
   unfold drawToTerm
   have hne : ¬ (Alignment.top = Alignment.bottom) := by intro h; cases h
   simp only [hmc, hal, Bool.false_eq_true, and_false, if_false, hne, false_and, List.replicate_zero,
     List.append_nil, Nat.add_zero, hlines, List.length_map]
-  rw [paintLoop_fit fx W H items.length (n == 0) hW items 0 0 (by omega) (fun _ => hhead)]
+  rw [paintLoop_fit fx W H items.length (n == 0) ds.unparked hW items 0 0 (by omega) (fun _ => ⟨hhead, hup⟩)]
   simp only [Nat.zero_add, drawOps, Bool.and_eq_true, ite_self]
   cases hitems : items.reverse with
   | nil =>
@@ -253,5 +262,30 @@ theorem drawToTerm_fit (fx : Fixes) (W H n : Nat) (hW : 0 < W) (items : List Ite
       simp only [hf, if_true]
       rw [opsFromF_true_zero, lastOf_snoc]
       simp only [Nat.zero_add, beq_self_eq_true, Bool.true_or, if_true, paintOps, hlast, utext_replicate, List.append_assoc]
+
+/-- a frame that fits leaves the cursor parked: the `cursor_unparked` flag of the F33 repair stays
+`false` along every history of fitting frames (which is why `drawToTerm_fit` may assume it) -/
+theorem unparkedAfter_fit (fx : Fixes) (W H n : Nat) (hW : 0 < W) (items : List Item) (ds : DrawState)
+    (hlines : ds.lines = items.map Item.line) (hal : ds.alignment = .top)
+    (hfit : barRows W items ≤ H) (hhead : headNonEmpty items) (hup : ds.unparked = false) :
+    unparkedAfter fx ds W H n = false := by
+  unfold unparkedAfter
+  cases hfp : fx.fpark with
+  | false => simpa using hup
+  | true =>
+    simp only [Bool.not_true, Bool.false_eq_true, if_false, hlines, List.length_map]
+    rw [paintLoop_fit fx W H items.length (n == 0) ds.unparked hW items 0 0 (by omega) (fun _ => ⟨hhead, hup⟩)]
+    cases hitems : items.reverse with
+    | nil =>
+      have : items = [] := by simpa using hitems
+      subst this
+      simp [lastOf, hup]
+    | cons last rinit =>
+      have : items = rinit.reverse ++ [last] := by
+        have := congrArg List.reverse hitems
+        simpa using this
+      subst this
+      rw [lastOf_snoc]
+      simp
 
 end IndicatifModel
